@@ -60,8 +60,13 @@ Section C08Text.
   Notation nav1f := (nav1f parse_float regex_match).
   Notation nav_allf := (nav_allf parse_float regex_match).
 
-  Lemma nav1f_vrel root x l l' v : vrel (nav1f root x (l, v)) (nav1f root x (l', v)).
-  Proof. destruct x as [y|i|i o lit|i|d]; cbn [FiltChainAddr.nav1f]; [apply nav1r_vrel|apply navp_vrel|apply navp_vrel|apply navp_vrel|apply navp_vrel]. Qed.
+  Lemma nav1f_vrel root x : forall l l' v, vrel (nav1f root x (l, v)) (nav1f root x (l', v)).
+  Proof.
+    induction x as [y|i|i o lit|i|d|y IH]; intros l l' v; cbn [FiltChainAddr.nav1f]; [apply nav1r_vrel|apply navp_vrel|apply navp_vrel|apply navp_vrel|apply navp_vrel|].
+    cbn [fst snd]. pose proof (containers_same_val v (Some l) (Some l')) as H.
+    induction H as [|cu cu' a b Hc _ IHc]; [constructor|]. cbn [flat_map]. apply vrel_app; [|exact IHc].
+    unfold same_val in Hc. rewrite Hc. apply IH.
+  Qed.
 
   Lemma nav_allf_vrel root q : forall lv lv', snd lv = snd lv' -> vrel (nav_allf root q lv) (nav_allf root q lv').
   Proof.
